@@ -156,6 +156,25 @@ fn case(rec: &mut Rec, ctx: &Ctx, idx: u64, rng: &mut ChaCha20Rng) {
       }
     }
   }
+  // >= t distinct points with repeated shares anywhere in the list
+  if t >= 2 && t <= 16 {
+    for pat in [crate::gen::SelPattern::DupsAnywhere, crate::gen::SelPattern::DupsFront, crate::gen::SelPattern::Surplus] {
+      let sel = crate::gen::selection(rng, n, t as usize, pat);
+      let picked: Vec<Share> = sel.iter().map(|&i| shares[i].clone()).collect();
+      rec.ev("recover_with_repeats");
+      match recover(&picked) {
+        Ok(c) if c.get_message() == m => {}
+        other => {
+          rec.violation(
+            &format!("recover-failed:{:?}", pat),
+            format!("a list holding >= t={} distinct shares (pattern {:?}) did not recover the message: {:?}", t, pat, other.map(|c| hex_short(&c.get_message())).map_err(|e| e.to_string())),
+            rep(json!({"selection": sel})),
+          );
+          return;
+        }
+      }
+    }
+  }
   // t-1 distinct never recover M
   if t >= 2 {
     let sel: Vec<Share> = order[..t as usize - 1].iter().map(|&i| shares[i].clone()).collect();
